@@ -823,7 +823,13 @@ def csr_array(interp, args, kwargs, lineno):
             issues.append(('X1-length', f"data/row/col arrays have different lengths: {sv[2]}, {sr[2]}, {sc[2]}", lineno))
         n = len(sr[1])
         if len(sv[1]) != n or len(sc[1]) != n:
-            issues.append(('X1-layout', f"data/row/col arrays are concatenated from different numbers of blocks ({len(sv[1])}/{len(sr[1])}/{len(sc[1])}): element order differs", lineno))
+            if issues:
+                pass        # a definite length mismatch was recorded already
+            else:
+                # equal total length, but the three arrays were put together from different numbers of pieces (e.g. one of them as
+                # the ravel of a stacked 2-D array): the element orders may or may not agree - not decidable block by block
+                raise AnalysisError(f"csr_array (line {lineno}): data/row/col arrays are concatenated from different numbers of blocks "
+                                    f"({len(sv[1])}/{len(sr[1])}/{len(sc[1])}); their element order cannot be compared")
         else:
             for k in range(n):
                 v, r, c = _squeeze(sv[1][k]), _squeeze(sr[1][k]), _squeeze(sc[1][k])
@@ -832,6 +838,10 @@ def csr_array(interp, args, kwargs, lineno):
                     if other.ndim == 0:
                         continue
                     if other.ndim != r.ndim or any(not (x - y).is_zero() for x, y in zip(other.shape, r.shape)):
+                        if (other.ndim == 1) != (r.ndim == 1) and (other.size() - r.size()).is_zero():
+                            # one side is a plain 1-D array of the right length whose provenance (the ravel of which n-D block?) is
+                            # not known: the orders may agree
+                            raise AnalysisError(f"csr_array (line {lineno}): block {k}: {nm} is 1-D/{other.ndim}-D while rows are {r.ndim}-D; element order cannot be compared")
                         issues.append(('X1-layout', f"block {k}: {nm} has ravel layout {tuple(map(str, other.shape))} but rows have {tuple(map(str, r.shape))}", lineno))
                         ok = False
                 if ok:
